@@ -268,6 +268,8 @@ func vhTwoEventReader(stream []byte) *vhReader {
 	} else {
 		r.cutAt = k
 	}
+	// the last bytes may arrive together with io.EOF (net/http bodies of known length do that)
+	r.eofWith = verifChoose("eofwith", 2) == 1
 	return r
 }
 
